@@ -61,11 +61,12 @@ type Params struct {
 }
 
 type builder struct {
-	r      *scen.Rand
-	p      *Params
-	nextID int
-	cfgs   []scen.ConfigSpec
-	solo   map[string]bool // custom standalone file names already given to a test
+	r           *scen.Rand
+	p           *Params
+	nextID      int
+	cfgs        []scen.ConfigSpec
+	solo        map[string]bool // custom standalone file names already given to a test
+	shuffleNext int             // -test.shuffle seed for the lifetime that runs the edited program
 }
 
 func pickW(r *scen.Rand, w map[string]int) string {
@@ -487,6 +488,7 @@ func (b *builder) edit(prog []*scen.TestNode) []*scen.TestNode {
 			j := r.Intn(i + 1)
 			out[i], out[j] = out[j], out[i]
 		}
+		b.shuffleNext = 1 + r.Intn(1000)
 	}
 	return out
 }
@@ -687,7 +689,7 @@ func World(seed uint64, index int, p *Params) *check.World {
 		return w
 	}
 	prog2 := b.edit(prog)
-	l2 := &scen.Lifetime{Mode: "runner", Count: pickInt(r, p.Counts), Env: pickEnv(r, p.Envs), Configs: b.cfgs, Tests: prog2, Note: "L2"}
+	l2 := &scen.Lifetime{Mode: "runner", Count: pickInt(r, p.Counts), Env: pickEnv(r, p.Envs), Configs: b.cfgs, Tests: prog2, Note: "L2", Shuffle: b.shuffleNext}
 	if r.Bool(p.TasksP) {
 		l2.Mode, l2.Count, l2.Sched = "tasks", 1, b.sched()
 		l2.Race = r.Bool(p.RaceP)
